@@ -123,3 +123,13 @@ func trP0x8800(b []byte) (out []byte, err error) {
 	}
 	return
 }
+
+func rtT0x0805(x *T0x0805) (y T0x0805, err error) { err = y.Parse(verifMsg(x.Encode())); return }
+
+func trT0x0805(b []byte) (out []byte, err error) {
+	var y T0x0805
+	if err = y.Parse(verifMsg(b)); err == nil {
+		out = y.Encode()
+	}
+	return
+}
